@@ -207,8 +207,16 @@ def _on_yield(rec, tr, item, best_obj):
         P.append(Problem("yield_gap", "yielded solution outside the gap", obj=obj, bound=ubound,
                          model=rec.name))
     if tr.yields and obj < tr.yields[-1]["obj"] - OBJ_TOL:
+        # the model of the previous solve is this one without its last exclusion cut, so the point found now was
+        # feasible then as well: if it is (checked on the previous exported model), the solver had returned, flagged
+        # optimal, a solution that was not optimal - a defect of the solver library, not of the enumeration
+        mech = None
+        prev_pm = getattr(tr, "prev_pm", None)
+        if prev_pm is not None and len(prev_pm.names) == len(vals) and not prev_pm.violations(vals) and \
+                abs(prev_pm.objective(vals) - obj) <= OBJ_TOL * max(1.0, abs(obj)):
+            mech = "solver-returns-suboptimal-flagged-optimal"
         P.append(Problem("yield_order", "objective decreased between consecutive yields",
-                         prev=tr.yields[-1]["obj"], obj=obj, model=rec.name))
+                         prev=tr.yields[-1]["obj"], obj=obj, model=rec.name, mech=mech))
     if any(y["names"] == active for y in tr.yields):
         P.append(Problem("yield_duplicate", "binary assignment yielded twice", names=list(active)[:8],
                          model=rec.name))
@@ -234,6 +242,7 @@ def _on_yield(rec, tr, item, best_obj):
         "coef": {pm.names[i]: pm.c[i] for i in pm.binaries if round(vals[i]) == 1 and pm.c[i]},
     })
     tr.last_values = dict(zip(pm.names, vals)) if len(pm.names) < 60000 else None
+    tr.prev_pm = pm
 
 
 _installed = {}
